@@ -191,13 +191,13 @@ Print Assumptions c12_memo.
     theorems above apply) or answered by wonderwall: navigation -> 302, otherwise 401, in both cases
     with Location = LoginRelative(ingress path, target), target = requested URL (navigation) or the
     Referer, falling back to the ingress path. *)
-Theorem c12_response : forall m clean_first pats ings r,
-  (handler_unauth m clean_first true pats ings r = Forward /\ needs_login m clean_first true pats false (rq_path r) = false)
+Theorem c12_response : forall m clean_first seg pats ings r,
+  (handler_unauth m clean_first seg true pats ings r = Forward /\ needs_login m clean_first true pats false (rq_path r) = false)
   \/ (needs_login m clean_first true pats false (rq_path r) = true /\
-      let prefix := matching_path ings (rq_path r) [] in
+      let prefix := matching_path seg ings (rq_path r) [] in
       if is_navigation (rq_method r) (rq_mode r) (rq_dest r) (rq_accept r)
-      then handler_unauth m clean_first true pats ings r = Redirect302 (login_relative prefix (rq_url_string r))
-      else handler_unauth m clean_first true pats ings r =
+      then handler_unauth m clean_first seg true pats ings r = Redirect302 (login_relative prefix (rq_url_string r))
+      else handler_unauth m clean_first seg true pats ings r =
            Unauthorized401 (login_relative prefix (match rq_referer r with [] => prefix | t => t end))
                            (accepts (rq_accept r) [s_any; s_app_json])).
 Proof. exact handler_unauth_cases. Qed.
@@ -227,7 +227,7 @@ Example c12_nonvacuous :
   s [47; 97; 100; 109; 105; 110] = true /\                    (* /admin    : login *)
   complete_hyp w_public [47; 112; 117; 98; 108; 105; 99; 47; 97] /\
   needs_login glob_match true true pats false w_path = true /\ (* with path.Clean: /public/../admin -> login *)
-  handler_unauth glob_match false true pats [[]]
+  handler_unauth glob_match false false true pats [[]]
     {| rq_method := s_GET; rq_mode := s_navigate; rq_dest := s_document; rq_accept := [s_text_html];
        rq_referer := []; rq_url_string := [47; 120]; rq_path := [47; 120] |}
   = Redirect302 (s_oauth2_login ++ s_redirect_q ++ [37; 50; 70; 120]).   (* /oauth2/login?redirect=%2Fx *)
